@@ -73,10 +73,10 @@ func Assert(id string, c bool) {
 	}
 }
 
-func And(a, b bool) bool { return a && b }
-func Or(a, b bool) bool  { return a || b }
-func Note(s string)      { Notes = append(Notes, s) }
-func Reach(id string)    {}
+func And(a, b bool) bool  { return a && b }
+func Or(a, b bool) bool   { return a || b }
+func Note(s string)       { Notes = append(Notes, s) }
+func Reach(id string)     {}
 func SetLoopBudget(n int) {}
 func SetAllocLimit(n int) {}
 
@@ -103,4 +103,19 @@ func Replay(script []uint64, f func()) (failures []string, panicked interface{},
 		f()
 	}()
 	return Failures, panicked, assumeViolated
+}
+
+// Panics runs f and reports whether it panicked. (Engine: a panic inside f
+// ends f; an unsafe out-of-bounds access is still reported as a violation.)
+func Panics(f func()) (p bool) {
+	defer func() {
+		if r := recover(); r != nil {
+			if _, ok := r.(assumeFailed); ok {
+				panic(r)
+			}
+			p = true
+		}
+	}()
+	f()
+	return false
 }
